@@ -23,17 +23,21 @@ def decision_params(f, body):
     type (`proposal: Proposal { new, old, kt }`) contributes its fields as roles and is passed as that struct of symbols."""
     from ..sym import STRUCT
     names, argv = [], []
+    ren = getattr(body, 'role_rename', None) or {}      # actual name -> new / old / kt (anchors.OptimiserAnchors._discover_roles)
     for i in body.args():
         nm = body.local_name(i) or 'arg%d' % i
-        ty = f.norm(body.local_ty(i)).split('<')[0]
+        ty = f.norm(body.local_ty(i))
+        ref = ty.startswith('&')
+        ty = ty.lstrip('&').replace('mut ', '').strip().split('<')[0]
         a = f.adts.get(ty)
         flds = [fl['name'] for fl in (a.get('fields') or [])] if a and len(a.get('variants') or []) == 1 else []
-        if flds and not body.local_ty(i).startswith(('&', '*')) and ty.rsplit('::', 1)[-1] != 'MCOptimiser':
-            names.extend(flds)
-            argv.append(STRUCT(ty, (a['variants'][0], 0), [(fn_, SYM(fn_)) for fn_ in flds]))
+        if flds and not body.local_ty(i).startswith(('&mut', '*')) and ty.rsplit('::', 1)[-1] != 'MCOptimiser' and \
+                (not ref or a.get('crate_kind') == 'lib'):
+            names.extend(ren.get(x, x) for x in flds)
+            argv.append(STRUCT(ty, (a['variants'][0], 0), [(fn_, SYM(ren.get(fn_, fn_))) for fn_ in flds]))
         else:
-            names.append(nm)
-            argv.append(SYM(nm))
+            names.append(ren.get(nm, nm))
+            argv.append(SYM(ren.get(nm, nm)))
     return names, argv
 
 
